@@ -158,6 +158,80 @@ def execute_cases(ctx, items, metas):
     return stats
 
 
+def real_optimizer_grids(ctx, names):
+    """HyperTuner.execute on REAL optimizers with heterogeneous grids (a list of sub-grids that vary DIFFERENT optional parameters, the optimizer
+    constructed with non-default values of parameters the grid omits): every evaluation must run under exactly Config(**point)."""
+    import pyvolutionary
+    from pyvolutionary import HyperTuner
+    from pyvolutionary.hypertuner import ParameterGrid
+    from collections import Counter
+    from .. import search
+    from ..optimizers import registry
+    from ..harness import quiet
+    r = ctx.rng
+    reg = {e["name"]: e for e in registry()}
+    n = 0
+    for nm in names:
+        e = reg[nm]
+        cls = getattr(pyvolutionary, nm); ccls = getattr(pyvolutionary, e["config"])
+        kw = dict(e["kwargs"]); kw.update({"max_cycles": 2, "fitness_error": None})
+        fields = ccls.model_fields
+        required = {k: kw[k] for k in kw if k in fields and fields[k].is_required()}
+        required.update({"population_size": kw["population_size"], "max_cycles": 2})
+        optional = [k for k in kw if k in fields and not fields[k].is_required() and k not in required and k not in ("fitness_error", "early_stopping")
+                    and isinstance(kw[k], (int, float)) and not isinstance(kw[k], bool) and fields[k].default is not None and kw[k] != fields[k].default]
+        r.shuffle(optional)
+        def ok(point):
+            try: ccls(**point); return True
+            except Exception: return False
+        base = {k: [v] for k, v in required.items()}
+        subs = []
+        for o in optional[:2]:
+            vals = [v for v in (kw[o], fields[o].default) if ok({**required, o: v})]
+            if vals: subs.append({**base, o: vals})
+        if ok(required): subs.append(dict(base))               # the bare sub-grid last: its point must see the DEFAULTS again
+        if not subs: continue
+        try:
+            pts = list(ParameterGrid(subs))
+            want = Counter(json.dumps(ccls(**p).model_dump(), sort_keys=True, default=str) for p in pts)
+        except Exception as ex:
+            ctx.note(f"real-grid for {nm} could not be built: {type(ex).__name__}"); continue
+        logf = tempfile.mktemp(prefix="pv-c19r-", dir="/var/tmp")
+        orig = cls.optimize
+
+        def spy(self, task, mode=None, workers=None, _orig=orig, _logf=logf):
+            with open(f"{_logf}.{os.getpid()}", "a") as fh:
+                fh.write(json.dumps(self._config.model_dump(), sort_keys=True, default=str) + "\n")
+            return _orig(self, task, mode=mode, workers=workers)
+        cls.optimize = spy
+        meta = {"optimizer": nm, "grid": subs, "constructed_with": kw}
+        try:
+            algo = cls(ccls(**kw))
+            tuner = HyperTuner(algo, param_grid=subs)
+            with quiet():
+                tuner.execute(search.build_task(search.cont_task(seed=5)), n_trials=1, n_jobs=2, mode="serial")
+            import glob
+            seen = Counter()
+            for f in glob.glob(logf + ".*"):
+                with open(f) as fh:
+                    for line in fh: seen[line.strip()] += 1
+                os.unlink(f)
+            n += 1
+            if seen != want:
+                extra = [json.loads(k) for k in (seen - want)]
+                missing = [json.loads(k) for k in (want - seen)]
+                diff = {k: (missing[0].get(k), extra[0].get(k)) for k in (missing[0] if missing and extra else {}) if missing[0].get(k) != extra[0].get(k)}
+                ctx.violation(f"execute:point evaluated under other parameters:{nm}", f"{nm}: a grid point was evaluated under a configuration that is not Config(**point) "
+                              f"(expected vs in force: {diff}); {len(missing)} of {len(pts)} points affected", {"kind": "real-grid", **meta})
+        except Exception as ex:
+            ctx.note(f"real-grid run of {nm} did not complete: {type(ex).__name__}: {str(ex)[:100]}")
+        finally:
+            cls.optimize = orig
+            import glob
+            for f in glob.glob(logf + ".*"): os.unlink(f)
+    return n
+
+
 def run(ctx, info):
     ctx.trusted += ["hand model of ParameterGrid and of the pandas ranking (average rank, dense rank of tuples as Python tuple order, first minimal row): tied by "
                     "correspondence; trial means / standard deviations are taken from the real DataFrame", "shape extraction of execute()/resolve() (pv/thyper.py)",
@@ -169,6 +243,16 @@ def run(ctx, info):
     items, metas = grid_cases(ctx)
     n_grid = len(items)
     stats = execute_cases(ctx, items, metas)
+    from .. import search as _search
+    sks = st.get("_skeletons", {})
+    noncanon = [n for n, sk in sks.items() if not sk["fields"]["canon"]]
+    for n in noncanon:
+        ctx.broke(f"skeleton-fact:{n}:set_config_parameters", f"{n}.set_config_parameters is not `self._config = Config(**parameters)`: a grid point may be evaluated under other parameters")
+    names = _search.all_names()
+    pick = sorted(set(noncanon) & set(names)) + ctx.rng.sample([n for n in names if n not in noncanon], 8 if ctx.quick else len(names) - len(set(noncanon) & set(names)))
+    n_real = real_optimizer_grids(ctx, pick)
+    ctx.add_cover(n_real, n_real, "HyperTuner.execute on real optimizers with heterogeneous sub-grids (different optional parameters per sub-grid, a bare sub-grid last, the "
+                  "optimizer constructed with non-default values): the configuration in force at every evaluation vs Config(**point)", [pick[0], pick[-1]])
     res = coq.run_cases("C19", PREAMBLE, items, "check", shard=300)
     ctx.add_cover(len(items), len({json.dumps(m, sort_keys=True, default=str) for m in metas}),
                   "ParameterGrid: every sub-grid with 0-3 keys (several insertion orders) x 1-3 values, as dict / singleton list / random lists of 2-3 sub-grids: len, "
